@@ -43,9 +43,11 @@ PermBitsFor(w, perms, xok) ==
   \cup (IF "s" \in perms /\ w \in {"u", "g"} THEN {Special(w)} ELSE {})
   \cup (IF "t" \in perms /\ w = "o" THEN {9} ELSE {})
 CopyBitsFor(w, from, cur) == {ClassShift(w) + k : k \in {j \in 0..2 : (ClassShift(from) + j) \in cur}}
+\* a clause without a who part is about all three classes (the process's umask plays no part in an operand of -perm)
+EffWho(who) == IF who = {} THEN {"u", "g", "o"} ELSE who
 ActBits(who, act, cur, isdir) ==
-  UNION {IF act.copy = "" THEN PermBitsFor(w, act.perms, isdir \/ cur \cap {0, 3, 6} # {}) ELSE CopyBitsFor(w, act.copy, cur) : w \in who}
-Affected(who) == UNION {ClassBits(w) \cup {Special(w)} : w \in who}
+  UNION {IF act.copy = "" THEN PermBitsFor(w, act.perms, isdir \/ cur \cap {0, 3, 6} # {}) ELSE CopyBitsFor(w, act.copy, cur) : w \in EffWho(who)}
+Affected(who) == UNION {ClassBits(w) \cup {Special(w)} : w \in EffWho(who)}
 \* "=" clears what it does not set - except that a directory keeps its set-user-ID and set-group-ID bits unless the
 \* operation itself mentions them (chmod's rule for directories; the operand is computed as chmod would compute a mode)
 KeptSpecial(act, bits, isdir) == IF isdir THEN {10, 11} \ (IF act.copy = "" THEN bits ELSE {}) ELSE {}
